@@ -164,7 +164,7 @@ struct Setup {
 
 fn ts(r: usize) -> Option<TimeoutSettings> { Some(TimeoutSettings::new(Some(Duration::from_secs(4)), Some(Duration::from_secs(4)), Some(Duration::from_secs(4)), r).unwrap()) }
 
-fn setup(pos: Pos, r: usize, try_section: bool, challenge_then_silent: bool, t: &mut Tape) -> Setup {
+fn setup(pos: Pos, r: usize, try_section: bool, challenge_then_silent: bool, partial: bool, t: &mut Tape) -> Setup {
     let port = 20_000 + t.draw(CFG, 1000) as u16;
     let addr = SocketAddr::new(SERVER_IP, port);
     // the servers' own choices (which malformed reply, challenge values, cut points) come from a tape
@@ -188,6 +188,16 @@ fn setup(pos: Pos, r: usize, try_section: bool, challenge_then_silent: bool, t: 
                 make: Box::new(move |v| {
                     let mut s = ValveServer::new(st.clone());
                     s.outcomes[k] = to_vm(v);
+                    if partial {
+                        // a silent attempt is realised as: the first fragment of a split answer, then nothing
+                        s.enc[k].split = vm::Split::Source { with_size: true };
+                        s.enc[k].frags = 2 + (wseed % 3) as usize;
+                        for o in s.outcomes[k].iter_mut() {
+                            if *o == vm::Outcome::Silent {
+                                *o = vm::Outcome::Partial;
+                            }
+                        }
+                    }
                     if challenge_then_silent {
                         // a silent attempt is realised as: the server hands out a challenge, then says nothing
                         for o in s.outcomes[k].iter_mut() {
@@ -232,6 +242,13 @@ fn setup(pos: Pos, r: usize, try_section: bool, challenge_then_silent: bool, t: 
                 make: Box::new(move |v| {
                     let mut s = Gs1Server::new(datagrams.clone());
                     s.outcomes = to_gm(v);
+                    if partial {
+                        for o in s.outcomes.iter_mut() {
+                            if *o == gm::Outcome::Silent {
+                                *o = gm::Outcome::Partial;
+                            }
+                        }
+                    }
                     let mut w = World::new(Tape::generate(wseed));
                     w.add_server(addr, Proto::Udp, Box::new(s));
                     w
@@ -265,6 +282,13 @@ fn setup(pos: Pos, r: usize, try_section: bool, challenge_then_silent: bool, t: 
                         s.hs_outcomes = to_gm(v);
                     } else {
                         s.data_outcomes = to_gm(v);
+                        if partial {
+                            for o in s.data_outcomes.iter_mut() {
+                                if *o == gm::Outcome::Silent {
+                                    *o = gm::Outcome::Partial;
+                                }
+                            }
+                        }
                     }
                     let mut w = World::new(Tape::generate(wseed));
                     w.add_server(addr, Proto::Udp, Box::new(s));
@@ -513,7 +537,7 @@ impl Prop for C10 {
     fn cases(&self, tier: Tier) -> u64 {
         let n = (cells().len() * POSITIONS.len()) as u64 + COMBOS;
         match tier {
-            Tier::Quick => n * 4,
+            Tier::Quick => n * 5,
             Tier::Thorough => n * 60,
         }
     }
@@ -540,7 +564,12 @@ impl Prop for C10 {
         // optional sections: with the toggle on Try the failure of the section does not fail the query
         let optional_section = matches!(pos, Pos::ValvePlayers | Pos::ValveRules | Pos::U2Rules | Pos::U2Players);
         let try_section = optional_section && (rep / 2) % 2 == 1;
-        let su = setup(pos, r, try_section, challenge_then_silent, &mut t);
+        // multi-datagram replies: a fourth realisation is "the first datagram, then nothing"
+        let partial = matches!(pos, Pos::ValveInfo | Pos::ValvePlayers | Pos::ValveRules | Pos::Gs1 | Pos::Gs3Data) && rep % 5 == 4 && !send_error && !challenge_then_silent;
+        let su = setup(pos, r, try_section, challenge_then_silent, partial, &mut t);
+        if partial {
+            out.probe("first_datagram_then_silence");
+        }
         // ---- fault-free reference run of the same scenario
         let ff = run_call((su.make)(&[]), &su.call);
         out.absorb(&ff.world);
@@ -702,7 +731,7 @@ impl Prop for C10 {
 
     fn rule(&self) -> String {
         format!(
-            "case index enumerates {} cells = 48 multi-position cells (Valve / Unreal 2, timeouts of the first k attempts at 2 or 3 request positions of the same query, k <= r) + {} (r, outcome vector) pairs (r in 0..=3, all vectors over {{silent, malformed, valid}} of length 1..=r+2) x {} request positions (Valve info/players/rules, FFOW, GameSpy 1, 2, 3 handshake and data, JC2M handshake and data, Quake, Unreal 2 info/rules/players, Minecraft Java, Bedrock, legacy, Mindustry); repetitions alternate how 'silent' is realised (no reply == request or reply lost; send fails with an io::Error; Valve: a challenge that is never followed by the reply), whether an optional section (Valve players / rules, Unreal 2 rules / players) is on Enforce or on Try, which of several malformed forms is sent (truncated; complete but for another session or request id, or of another kind), and redraw the server state; every cell runs the fault-free scenario and the faulty one; oracle = a 10-line reference model of the retry rule for the attempt count of the unit and the result class (Try: the query succeeds without the section), plus: no request is transmitted more than r+1 times, a Valve challenge is echoed exactly once; distinct = (cell, event-log hash)",
+            "case index enumerates {} cells = 48 multi-position cells (Valve / Unreal 2, timeouts of the first k attempts at 2 or 3 request positions of the same query, k <= r) + {} (r, outcome vector) pairs (r in 0..=3, all vectors over {{silent, malformed, valid}} of length 1..=r+2) x {} request positions (Valve info/players/rules, FFOW, GameSpy 1, 2, 3 handshake and data, JC2M handshake and data, Quake, Unreal 2 info/rules/players, Minecraft Java, Bedrock, legacy, Mindustry); repetitions alternate how 'silent' is realised (no reply == request or reply lost; send fails with an io::Error; Valve: a challenge that is never followed by the reply; Valve, GameSpy 1 and 3: only the first datagram of a multi-datagram reply arrives), whether an optional section (Valve players / rules, Unreal 2 rules / players) is on Enforce or on Try, which of several malformed forms is sent (truncated; complete but for another session or request id, or of another kind), and redraw the server state; every cell runs the fault-free scenario and the faulty one; oracle = a 10-line reference model of the retry rule for the attempt count of the unit and the result class (Try: the query succeeds without the section), plus: no request is transmitted more than r+1 times, a Valve challenge is echoed exactly once; distinct = (cell, event-log hash)",
             cells().len() * POSITIONS.len() + 48,
             cells().len(),
             POSITIONS.len()
@@ -717,7 +746,7 @@ impl Prop for C10 {
         ]
     }
 
-    fn required_probes(&self) -> Vec<&'static str> { vec!["silent_attempt", "malformed_reply", "send_error", "section_on_try", "challenge_then_silent"] }
+    fn required_probes(&self) -> Vec<&'static str> { vec!["silent_attempt", "malformed_reply", "send_error", "section_on_try", "challenge_then_silent", "first_datagram_then_silence"] }
 
     fn components(&self) -> Value { standard_components() }
 }
